@@ -41,8 +41,9 @@ GROUPINGS = {
 def cases(tier, seed):
     out = []
     rng = (1, 2, 3) if tier == 'quick' else (1, 2, 3, 4)
-    shapes3 = [[5, 6, 7], [4, 4, 4], [3, 5, 4]] if tier == 'quick' else [[5, 6, 7], [4, 4, 4], [3, 5, 4], [7, 5, 9], [4, 8, 5], [6, 6, 5]]
-    shapes4 = [[4, 5, 7, 6], [3, 4, 5, 4]] if tier == 'quick' else [[4, 5, 7, 6], [3, 4, 5, 4], [5, 3, 4, 7], [4, 4, 4, 4]]
+    # incl. lopsided shapes (one extent much longer than the others: gather/scatter buffers dominate)
+    shapes3 = [[5, 6, 7], [4, 4, 4], [3, 5, 4], [13, 3, 4], [3, 4, 13]] if tier == 'quick' else [[5, 6, 7], [4, 4, 4], [3, 5, 4], [7, 5, 9], [4, 8, 5], [6, 6, 5], [13, 3, 4], [3, 4, 13], [3, 13, 3], [4, 17, 5]]
+    shapes4 = [[4, 5, 7, 6], [3, 4, 5, 4], [3, 4, 13, 3]] if tier == 'quick' else [[4, 5, 7, 6], [3, 4, 5, 4], [5, 3, 4, 7], [4, 4, 4, 4], [3, 4, 13, 3], [13, 3, 4, 4]]
     for gname, (groups, spec) in GROUPINGS.items():
         d = len(next(iter(groups[0].values())))
         for shape in (shapes3 if d == 3 else shapes4):
